@@ -160,7 +160,7 @@ class CHECK(core.Check):
                for s in sels for i in imps for t in truths for v in vals]
         L = 3 if tier == "thorough" else 2
         if tier == "thorough":
-            one3 = [x for x in one if x["value"] != "q:5/2" and x["truth"] != "i:2"]
+            one3 = [x for x in one if x["value"] == "i:10" and x["truth"] in (None, "q:1/4", "q:3/4")]
         for arb in ARBS:
             for dt in (("q:1/2",) if tier == "quick" else ("q:1/4", "q:1/2")):
                 for n in range(L + 1):
